@@ -201,3 +201,63 @@ Example C16_unit_values_example :
   (forall x, (Qabs ((fun y => y) x - x) <= 0 * Qabs x)%Q) /\
   encode (fun x => x) [(500 # 1, (-9)%Z); (2 # 1, (-6)%Z)] = Some ([500 # 1; ((2 # 1) * pow10 3)%Q], (-9)%Z).
 Proof. exact rounding_example. Qed.
+
+(* ================= device specifications: qubits and couplings (model: Codec/DeviceSpec.v) ================= *)
+From VF Require Import Codec.DeviceSpec Codec.DeviceSpecProofs.
+
+(* the device read from a specification holds a coupling between a and b exactly when the specification lists the target
+   [a; b] or [b; a] in a target set whose ordering is SYMMETRIC (device.proto: "Two-qubit gates can be applied to all
+   two-element targets in a TargetSet of this type"); targets of any other set, of any size, add nothing *)
+Theorem C16_device_couplings_exact : forall s d, from_proto s = Some d ->
+  forall a b, coupled d a b = true <-> coupling s a b.
+Proof. exact from_proto_coupled. Qed.
+Print Assumptions C16_device_couplings_exact.
+
+(* validate_operation for a two-qubit gate other than measurement / wait accepts exactly the described couplings *)
+Theorem C16_device_validate_two_qubit : forall s d, from_proto s = Some d ->
+  forall a b, validate_op d false [a; b] = true <-> coupling s a b.
+Proof. exact validate_two_qubit. Qed.
+Print Assumptions C16_device_validate_two_qubit.
+
+(* measurement / wait on any qubits, and gates on one or on three and more qubits, only need their qubits on the device *)
+Theorem C16_device_validate_other : forall s d, from_proto s = Some d -> forall variadic qs,
+  (variadic = true \/ length qs <> 2%nat) ->
+  (validate_op d variadic qs = true <-> Forall (fun q => In q (valid_qubits s)) qs).
+Proof. exact validate_other. Qed.
+Print Assumptions C16_device_validate_other.
+
+(* a specification without SYMMETRIC sets (measurement targets, sets of unspecified ordering) couples nothing *)
+Theorem C16_device_no_symmetric_no_coupling : forall s d,
+  (forall ts, In ts (valid_targets s) -> ts_ordering ts <> Symmetric) -> from_proto s = Some d ->
+  d_pairs d = [] /\ forall a b, validate_op d false [a; b] = false.
+Proof. exact no_symmetric_no_coupling. Qed.
+Print Assumptions C16_device_no_symmetric_no_coupling.
+
+(* GridDevice.from_proto(d.to_proto()) == d, for the device read from any accepted specification and for any device object *)
+Theorem C16_device_spec_roundtrip : forall s d, from_proto s = Some d -> from_proto (to_proto d) = Some d.
+Proof. exact spec_device_roundtrip. Qed.
+Print Assumptions C16_device_spec_roundtrip.
+
+Theorem C16_device_to_proto_roundtrip : forall d, wf_device d -> from_proto (to_proto d) = Some d.
+Proof. exact from_to_proto. Qed.
+Print Assumptions C16_device_to_proto_roundtrip.
+
+Theorem C16_device_from_proto_wf : forall s d, from_proto s = Some d -> wf_device d.
+Proof. exact from_proto_wf. Qed.
+Print Assumptions C16_device_from_proto_wf.
+
+(* the specification the device writes describes the qubits and couplings of the specification it was read from *)
+Theorem C16_device_to_proto_same_meaning : forall s d, from_proto s = Some d ->
+  (forall q, In q (valid_qubits (to_proto d)) <-> In q (valid_qubits s)) /\
+  (forall a b, coupling (to_proto d) a b <-> coupling s a b).
+Proof. exact to_proto_same_meaning. Qed.
+Print Assumptions C16_device_to_proto_same_meaning.
+
+Example C16_device_spec_examples :
+  from_proto ex_meas_spec = Some {| d_qubits := [(0, 0); (2, 2)]; d_pairs := [] |} /\
+  (forall ts, In ts (valid_targets ex_meas_spec) -> ts_ordering ts <> Symmetric) /\
+  validate_op {| d_qubits := [(0, 0); (2, 2)]; d_pairs := [] |} true [(0, 0); (2, 2)] = true /\
+  from_proto ex_pair_spec = Some {| d_qubits := [(0, 0); (0, 1); (1, 1)]; d_pairs := [((0, 0), (0, 1)); ((0, 1), (1, 1))] |} /\
+  wf_device {| d_qubits := [(0, 0); (0, 1); (1, 1)]; d_pairs := [((0, 0), (0, 1)); ((0, 1), (1, 1))] |} /\
+  coupling ex_pair_spec (0, 0) (0, 1) /\ ~ coupling ex_pair_spec (0, 0) (1, 1).
+Proof. exact device_spec_examples. Qed.
